@@ -103,7 +103,9 @@ def strategy(draw, tier="quick"):
     k = draw(st.integers(2, 3))
     chars = draw(st.lists(st.sampled_from(POOL), min_size=k, max_size=k, unique=True))
     nt = draw(st.integers(1, 3))
-    tnames = ["TA", "TB", "TC"][:nt]
+    # terminal names, incl. families that look like names a converter might generate from another
+    # terminal's name and a state number ("the names of terminals and nonterminals never collide")
+    tnames = draw(st.sampled_from([["TA", "TB", "TC"]] * 3 + [["T", "T_0", "T_1"], ["N", "N_1", "N_2"], ["A", "A_0", "AA"], ["X0", "X_0", "X1"], ["T1", "T_1", "T__1"]]))[:nt]
     terms = []
     for i, n in enumerate(tnames):
         terms.append([n, draw(tdef(chars, tnames[:i]))])
